@@ -220,11 +220,12 @@ Proof.
   - apply (forallb_impl qpchar); [|exact (qp_chars k Hk)]. intros x Hx. unfold qpchar, always_safe, nb in *. lia.
 Qed.
 
-Lemma parse_qsl_pairs : forall ps, ps <> [] ->
+Lemma parse_qsl_pairs : forall ps,
   (forall k v, In (k, v) ps -> forallb scalar k = true /\ forallb scalar v = true) ->
   parse_qsl true (join 38 (map enc_pair ps)) = ps.
 Proof.
-  intros ps Hne H. unfold parse_qsl.
+  intros ps H. destruct ps as [|e0 ps0]; [reflexivity|]. set (ps := e0 :: ps0) in *.
+  assert (Hne : ps <> []) by discriminate. clearbody ps. clear e0 ps0. unfold parse_qsl.
   assert (Hnn : is_nil (join 38 (map enc_pair ps)) = false).
   { destruct ps as [|[k v] ps]; [contradiction|]. cbn [map].
     pose proof (join_nonnil 38 (enc_pair (k, v)) (map enc_pair ps)) as Hj.
@@ -240,23 +241,37 @@ Proof.
     intros c Hc. unfold qpchar, always_safe, nb in *. lia.
 Qed.
 
-Lemma query_pairs_nonnil : forall q, q <> [] -> NoDup (keys q) ->
-  forallb (fun kv => seq_len_ok (snd kv)) q = true -> query_pairs q <> [].
+(* what comes back for ANY dict of encodable text: the accumulation of the rendered pairs *)
+Theorem dec_query_enc : forall q, query_scalar q = true ->
+  dec_query (enc_query q) = accumulate (query_pairs q).
 Proof.
-  intros q Hne Hnd Hlen Hnil.
-  assert (Hc : canon_query q = []).
-  { rewrite <- (accumulate_pairs q Hnd Hlen), Hnil. reflexivity. }
-  pose proof (canon_query_perm q Hnd) as Hp. rewrite Hc in Hp. apply Permutation_nil in Hp. contradiction.
+  intros q Hs. unfold enc_query. destruct q as [|e q]; [reflexivity|]. cbn [is_nil].
+  unfold dec_query. rewrite parse_qsl_pairs; [reflexivity|].
+  intros k v. apply query_pairs_scalar; exact Hs.
 Qed.
 
-Theorem dec_query_enc : forall q, query_scalar q = true -> NoDup (keys q) ->
-  forallb (fun kv => seq_len_ok (snd kv)) q = true -> dec_query (enc_query q) = canon_query q.
+(* accumulation never produces a sequence shorter than 2 *)
+Lemma dict_add_len : forall d k v, forallb (fun kv => seq_len_ok (snd kv)) d = true ->
+  forallb (fun kv => seq_len_ok (snd kv)) (dict_add d k v) = true.
 Proof.
-  intros q Hs Hnd Hlen. unfold enc_query. destruct q as [|e q]; [reflexivity|]. cbn [is_nil].
-  unfold dec_query. rewrite parse_qsl_pairs.
-  - apply accumulate_pairs; assumption.
-  - apply query_pairs_nonnil; [discriminate | assumption | assumption].
-  - intros k v. apply query_pairs_scalar; exact Hs.
+  induction d as [|[k' old] d IH]; intros k v H; [reflexivity|]. cbn [dict_add].
+  cbn [forallb snd] in H. apply andb_true_iff in H as [Ho Hd].
+  destruct (str_eqb k k'); cbn [forallb snd].
+  - rewrite Hd, andb_true_r. cbn [seq_len_ok]. rewrite app_length. cbn [length].
+    destruct old as [s|l]; cbn [to_list length]; [reflexivity|].
+    cbn [seq_len_ok] in Ho. apply Nat.leb_le in Ho. apply Nat.leb_le. lia.
+  - rewrite Ho, (IH k v Hd). reflexivity.
+Qed.
+
+Lemma accumulate_len : forall ps, forallb (fun kv => seq_len_ok (snd kv)) (accumulate ps) = true.
+Proof.
+  intros ps. unfold accumulate.
+  assert (G : forall d, forallb (fun kv => seq_len_ok (snd kv)) d = true ->
+              forallb (fun kv => seq_len_ok (snd kv))
+                (fold_left (fun d kv => dict_add d (fst kv) (snd kv)) ps d) = true).
+  { induction ps as [|[k v] ps IH]; intros d Hd; [exact Hd|]. cbn [fold_left fst snd].
+    apply IH, dict_add_len; exact Hd. }
+  apply G. reflexivity.
 Qed.
 
 (* ---------------- host, port, text ---------------- *)
@@ -308,67 +323,96 @@ Proof.
   intros c Hc. unfold qpchar, always_safe, query_ch in *. lia.
 Qed.
 
-(* ---------------- the three steps ---------------- *)
-Record wf_parts (uw : N -> bool) (u : url) : Prop := {
-  wp_drv : negb (is_nil (u_drv u)) && forallb (wordch uw) (u_drv u) = true;
-  wp_user : opt_all scalar (u_user u) = true;
-  wp_pass : opt_all scalar (u_pass u) = true;
-  wp_db : opt_all scalar (u_db u) = true;
-  wp_query : query_scalar (u_query u) = true;
-  wp_host : host_ok (u_host u) = true;
-  wp_nodup : NoDup (keys (u_query u));
-  wp_pu : password_has_user u = true;
-  wp_len : forallb (fun kv => seq_len_ok (snd kv)) (u_query u) = true }.
+(* ---------------- the three steps, for every URL of the domain ---------------- *)
+Record domain_parts (uw : N -> bool) (u : url) : Prop := {
+  dp_drv : negb (is_nil (u_drv u)) && forallb (wordch uw) (u_drv u) = true;
+  dp_user : opt_all scalar (u_user u) = true;
+  dp_pass : opt_all scalar (u_pass u) = true;
+  dp_db : opt_all scalar (u_db u) = true;
+  dp_query : query_scalar (u_query u) = true;
+  dp_host : host_ok (u_host u) = true;
+  dp_nodup : NoDup (keys (u_query u)) }.
 
-Lemma wf_split : forall uw u, wf uw u = true -> wf_parts uw u.
+Lemma domain_split : forall uw u, domain uw u = true -> domain_parts uw u.
 Proof.
-  intros uw u H. unfold wf, domain in H.
-  apply andb_true_iff in H as [H Hlen]. apply andb_true_iff in H as [H Hpu].
+  intros uw u H. unfold domain in H.
   apply andb_true_iff in H as [H Hnd]. apply andb_true_iff in H as [H Hho].
   apply andb_true_iff in H as [H Hq]. apply andb_true_iff in H as [H Hdb].
   apply andb_true_iff in H as [H Hpw]. apply andb_true_iff in H as [H Hus].
   constructor; try assumption. apply nodup_keys_NoDup. exact Hnd.
 Qed.
 
-(* 1. rendering = assembling the componentwise encodings *)
-Theorem render_is_assembly : forall uw u, wf uw u = true -> render u = Ok (assemble (enc u)).
+Lemma wf_domain : forall uw u, wf uw u = true ->
+  domain uw u = true /\ password_has_user u = true
+  /\ forallb (fun kv => seq_len_ok (snd kv)) (u_query u) = true.
 Proof.
-  intros uw u H. destruct (wf_split uw u H) as [_ Hus Hpw Hdb Hq _ _ Hpu _].
+  intros uw u H. unfold wf in H. apply andb_true_iff in H as [H H3]. apply andb_true_iff in H as [H1 H2].
+  repeat split; assumption.
+Qed.
+
+(* the password is written only behind a username *)
+Definition shown_pass (u : url) : option str := if has_some (u_user u) then u_pass u else None.
+
+(* the literal components that render_as_string writes for a URL of the domain *)
+Definition enc_d (u : url) : comps :=
+  mkComps (u_drv u)
+          (option_map (qt SAFE_USER) (u_user u)) (option_map (qt SAFE_USER) (shown_pass u))
+          (option_map lit_host (u_host u)) (option_map str_of_Z (u_port u))
+          (option_map (qt SAFE_DB) (u_db u)) (enc_query (u_query u)).
+
+Lemma enc_d_wf : forall u, password_has_user u = true -> enc_d u = enc u.
+Proof.
+  intros u H. unfold enc_d, enc, shown_pass. unfold password_has_user in H.
+  destruct (u_user u); [reflexivity|]. destruct (u_pass u); [discriminate | reflexivity].
+Qed.
+
+(* the URL that comes back *)
+Definition observed (u : url) : url :=
+  mkUrl (u_drv u) (u_user u) (shown_pass u) (u_host u) (u_port u) (u_db u)
+        (accumulate (query_pairs (u_query u))).
+
+Lemma shown_pass_scalar : forall u, opt_all scalar (u_pass u) = true -> opt_all scalar (shown_pass u) = true.
+Proof. intros u H. unfold shown_pass. destruct (has_some (u_user u)); [exact H | reflexivity]. Qed.
+
+(* 1. rendering = assembling the componentwise encodings *)
+Theorem render_is_assembly_d : forall uw u, domain uw u = true -> render u = Ok (assemble (enc_d u)).
+Proof.
+  intros uw u H. destruct (domain_split uw u H) as [_ Hus Hpw Hdb Hq _ _].
   unfold render.
-  assert (Hui : render_userinfo u = Ok (asm_userinfo (c_user (enc u)) (c_pass (enc u)))).
-  { unfold render_userinfo, enc. cbn [c_user c_pass]. unfold password_has_user in Hpu.
-    destruct (u_user u) as [us|]; cbn [option_map asm_userinfo].
+  assert (Hui : render_userinfo u = Ok (asm_userinfo (c_user (enc_d u)) (c_pass (enc_d u)))).
+  { unfold render_userinfo, enc_d, shown_pass. cbn [c_user c_pass].
+    destruct (u_user u) as [us|]; cbn [option_map asm_userinfo has_some].
     - cbn in Hus. rewrite (quote_r_scalar _ us Hus). cbn [bind].
       destruct (u_pass u) as [p|]; cbn [option_map opt_pre].
       + cbn in Hpw. rewrite (quote_r_scalar _ p Hpw). cbn [bind]. reflexivity.
       + reflexivity.
-    - destruct (u_pass u); [discriminate | reflexivity]. }
+    - reflexivity. }
   rewrite Hui. cbn [bind].
-  assert (Hd : render_db u = Ok (opt_pre 47 (c_db (enc u)))).
-  { unfold render_db, enc. cbn [c_db]. destruct (u_db u) as [d|]; [|reflexivity].
+  assert (Hd : render_db u = Ok (opt_pre 47 (c_db (enc_d u)))).
+  { unfold render_db, enc_d. cbn [c_db]. destruct (u_db u) as [d|]; [|reflexivity].
     cbn in Hdb. rewrite (quote_r_scalar _ d Hdb). reflexivity. }
   rewrite Hd. cbn [bind]. rewrite (render_query_ok u Hq). cbn [bind].
-  unfold assemble, enc. cbn [c_drv c_user c_pass c_host c_port c_db c_query].
+  unfold assemble, enc_d. cbn [c_drv c_user c_pass c_host c_port c_db c_query].
   unfold render_host, render_port, lit_host.
   destruct (u_host u); destruct (u_port u); reflexivity.
 Qed.
 
 (* 2. every encoded component satisfies its own side condition *)
-Theorem enc_comp_ok : forall uw u, wf uw u = true -> comp_ok uw (enc u) = true.
+Theorem enc_d_comp_ok : forall uw u, domain uw u = true -> comp_ok uw (enc_d u) = true.
 Proof.
-  intros uw u H. destruct (wf_split uw u H) as [Hdrv Hus Hpw Hdb Hq Hho _ Hpu _].
-  unfold comp_ok, enc. cbn [c_drv c_user c_pass c_host c_port c_db c_query].
+  intros uw u H. destruct (domain_split uw u H) as [Hdrv Hus Hpw Hdb Hq Hho _].
+  unfold comp_ok, enc_d. cbn [c_drv c_user c_pass c_host c_port c_db c_query].
   rewrite Hdrv. cbn [andb].
   rewrite (qt_chars SAFE_USER (u_user u) user_ch Hus)
     by (intros x Hx; unfold qchar, mem, SAFE_USER, always_safe, user_ch in *; cbn [existsb] in Hx; lia).
-  rewrite (qt_chars SAFE_USER (u_pass u) (nb 64) Hpw)
+  rewrite (qt_chars SAFE_USER (shown_pass u) (nb 64) (shown_pass_scalar u Hpw))
     by (intros x Hx; unfold qchar, mem, SAFE_USER, always_safe, nb in *; cbn [existsb] in Hx; lia).
   rewrite (qt_chars SAFE_DB (u_db u) db_ch Hdb)
     by (intros x Hx; unfold qchar, mem, SAFE_DB, always_safe, db_ch in *; cbn [existsb] in Hx; lia).
   rewrite (enc_query_chars _ Hq). cbn [andb].
-  assert (Hp1 : negb (has_some (option_map (qt SAFE_USER) (u_pass u)))
+  assert (Hp1 : negb (has_some (option_map (qt SAFE_USER) (shown_pass u)))
                 || has_some (option_map (qt SAFE_USER) (u_user u)) = true).
-  { unfold password_has_user in Hpu. destruct (u_pass u); destruct (u_user u); exact Hpu. }
+  { unfold shown_pass. destruct (u_user u); destruct (u_pass u); reflexivity. }
   rewrite Hp1. cbn [andb].
   assert (Hh : host_lit_ok (option_map lit_host (u_host u)) = true).
   { destruct (u_host u) as [h|]; [|reflexivity]. exact (proj1 (host_lit h Hho)). }
@@ -379,16 +423,16 @@ Proof.
   intros x Hx. unfold port_ch. lia.
 Qed.
 
-(* 3. decoding each literal component gives the URL component back *)
-Theorem decode_enc : forall uw u, wf uw u = true -> decode (strip_host (enc u)) = Ok (canon u).
+(* 3. decoding each literal component *)
+Theorem decode_enc_d : forall uw u, domain uw u = true -> decode (strip_host (enc_d u)) = Ok (observed u).
 Proof.
-  intros uw u H. destruct (wf_split uw u H) as [_ Hus Hpw Hdb Hq Hho Hnd _ Hlen].
-  unfold decode, strip_host, enc. cbn [c_drv c_user c_pass c_host c_port c_db c_query].
+  intros uw u H. destruct (domain_split uw u H) as [_ Hus Hpw Hdb Hq Hho _].
+  unfold decode, strip_host, enc_d, observed. cbn [c_drv c_user c_pass c_host c_port c_db c_query].
   rewrite dec_port_str. cbn [bind].
   rewrite (dec_text_qt SAFE_USER (u_user u) eq_refl eq_refl Hus).
-  rewrite (dec_text_qt SAFE_USER (u_pass u) eq_refl eq_refl Hpw).
+  rewrite (dec_text_qt SAFE_USER (shown_pass u) eq_refl eq_refl (shown_pass_scalar u Hpw)).
   rewrite (dec_text_qt SAFE_DB (u_db u) eq_refl eq_refl Hdb).
-  rewrite (dec_query_enc _ Hq Hnd Hlen).
+  rewrite (dec_query_enc _ Hq).
   assert (Hh : dec_host (option_map lit_host (u_host u)) = u_host u).
   { destruct (u_host u) as [h|]; [|reflexivity]. exact (proj2 (host_lit h Hho)). }
   rewrite Hh. reflexivity.
@@ -398,10 +442,38 @@ Theorem parse_assembled : forall uw c, comp_ok uw c = true ->
   parse uw (assemble c) = decode (strip_host c).
 Proof. intros uw c H. unfold parse. rewrite (split_ok uw c H). reflexivity. Qed.
 
+(* the round trip of EVERY URL of the domain, defects included *)
+Theorem roundtrip_domain : forall uw u, domain uw u = true -> roundtrip uw u = Ok (observed u).
+Proof.
+  intros uw u H. unfold roundtrip. rewrite (render_is_assembly_d uw u H). cbn [bind].
+  rewrite (parse_assembled uw _ (enc_d_comp_ok uw u H)). exact (decode_enc_d uw u H).
+Qed.
+
+Lemma observed_wf : forall uw u, wf uw u = true -> observed u = canon u.
+Proof.
+  intros uw u H. destruct (wf_domain uw u H) as [Hd [Hpu Hlen]].
+  unfold observed, canon. f_equal.
+  - unfold shown_pass. unfold password_has_user in Hpu.
+    destruct (u_user u); [reflexivity|]. destruct (u_pass u); [discriminate | reflexivity].
+  - apply accumulate_pairs; [exact (dp_nodup uw u (domain_split uw u Hd)) | exact Hlen].
+Qed.
+
+Theorem render_is_assembly : forall uw u, wf uw u = true -> render u = Ok (assemble (enc u)).
+Proof.
+  intros uw u H. destruct (wf_domain uw u H) as [Hd [Hpu _]].
+  rewrite <- (enc_d_wf u Hpu). exact (render_is_assembly_d uw u Hd).
+Qed.
+
+Theorem enc_comp_ok : forall uw u, wf uw u = true -> comp_ok uw (enc u) = true.
+Proof.
+  intros uw u H. destruct (wf_domain uw u H) as [Hd [Hpu _]].
+  rewrite <- (enc_d_wf u Hpu). exact (enc_d_comp_ok uw u Hd).
+Qed.
+
 Theorem roundtrip_wf : forall uw u, wf uw u = true -> roundtrip uw u = Ok (canon u).
 Proof.
-  intros uw u H. unfold roundtrip. rewrite (render_is_assembly uw u H). cbn [bind].
-  rewrite (parse_assembled uw _ (enc_comp_ok uw u H)). exact (decode_enc uw u H).
+  intros uw u H. destruct (wf_domain uw u H) as [Hd _].
+  rewrite (roundtrip_domain uw u Hd), (observed_wf uw u H). reflexivity.
 Qed.
 
 (* URL.__eq__ : field-wise, the query as a dict *)
@@ -411,17 +483,17 @@ Definition url_eq (a b : url) : Prop :=
 
 Theorem canon_eq : forall uw u, wf uw u = true -> url_eq (canon u) u.
 Proof.
-  intros uw u H. destruct (wf_split uw u H) as [_ _ _ _ _ _ Hnd _ _].
+  intros uw u H. destruct (wf_domain uw u H) as [Hd _].
   unfold url_eq, canon. cbn [u_drv u_user u_pass u_host u_port u_db u_query].
-  repeat split. apply canon_query_perm; exact Hnd.
+  repeat split. apply canon_query_perm. exact (dp_nodup uw u (domain_split uw u Hd)).
 Qed.
 
-(* the rendered text of a well-formed URL never raises and is what [assemble] says *)
 Theorem roundtrip_eq : forall uw u, wf uw u = true ->
   exists s u', render u = Ok s /\ parse uw s = Ok u' /\ url_eq u' u.
 Proof.
   intros uw u H. exists (assemble (enc u)), (canon u). split; [exact (render_is_assembly uw u H)|]. split.
-  - rewrite (parse_assembled uw _ (enc_comp_ok uw u H)). exact (decode_enc uw u H).
+  - pose proof (roundtrip_wf uw u H) as R. unfold roundtrip in R.
+    rewrite (render_is_assembly uw u H) in R. exact R.
   - exact (canon_eq uw u H).
 Qed.
 
@@ -437,10 +509,30 @@ Theorem roundtrip_sorted : forall uw u, wf uw u = true ->
   sort_keys (map fst (u_query u)) = map fst (u_query u) -> roundtrip uw u = Ok u.
 Proof.
   intros uw u H Hs. rewrite (roundtrip_wf uw u H). f_equal.
-  apply canon_sorted; [|exact Hs]. exact (wp_nodup uw u (wf_split uw u H)).
+  apply canon_sorted; [|exact Hs]. destruct (wf_domain uw u H) as [Hd _].
+  exact (dp_nodup uw u (domain_split uw u Hd)).
 Qed.
 
-(* ---------------- the defects of the unchanged code ---------------- *)
+(* ---------------- the guard excludes exactly the defective region ---------------- *)
+Lemma perm_forallb : forall {A} (p : A -> bool) l l', Permutation l l' -> forallb p l = true -> forallb p l' = true.
+Proof.
+  intros A p l l' HP H. apply forallb_forall. intros x Hx. rewrite forallb_forall in H.
+  apply H. apply (Permutation_in _ (Permutation_sym HP)). exact Hx.
+Qed.
+
+Theorem guard_exact : forall uw u, domain uw u = true -> wf uw u = false ->
+  exists u', roundtrip uw u = Ok u' /\ ~ url_eq u' u.
+Proof.
+  intros uw u Hd Hwf. exists (observed u). split; [exact (roundtrip_domain uw u Hd)|].
+  intros [_ [_ [Hp [_ [_ [_ Hq]]]]]]. unfold wf in Hwf. rewrite Hd in Hwf. cbn [andb] in Hwf.
+  apply andb_false_iff in Hwf as [Hpu|Hlen].
+  - unfold observed, shown_pass in Hp. cbn [u_pass] in Hp. unfold password_has_user in Hpu.
+    destruct (u_user u); destruct (u_pass u); cbn in Hpu; try discriminate.
+  - unfold observed in Hq. cbn [u_query] in Hq.
+    rewrite (perm_forallb _ _ _ Hq (accumulate_len _)) in Hlen. discriminate.
+Qed.
+
+(* ---------------- concrete witnesses of the three defects ---------------- *)
 Definition U (d : str) us pw ho po db q : url := mkUrl d us pw ho po db q.
 
 Lemma not_perm_singleton : forall (a b : str * qval), a <> b -> ~ Permutation [a] [b].
